@@ -27,13 +27,13 @@ func init() {
 			"(R3) Interface.getRecord/getMeta return a record only across a permission check on storage and cache path, every mutating Interface method reaches Controller.Put only behind getRecord/getMeta/HasAllPermissions, Query/Purge/Subscribe pass options.Local/Internal in order; " +
 			"(R4) nobody outside package database calls Controller/storage read-write methods; (R5) the single send on Subscription.Feed is behind CheckPermission(sub.local, sub.internal) and those fields are only written from options.Local/Internal; " +
 			"(R6) deletes in storage.Purger implementations are behind CheckPermission; (R7) package api builds only unprivileged interfaces; (R8) only the designated functions write Meta.secret/cronjewel. " +
-			"(R9) the secret and crown-jewel flags survive storage: the generated Meta (de)serialiser reads each flag from the byte it was written to (= C08-R3, flag bytes); " +
+			"(R9) the secret and crown-jewel flags survive storage: the generated Meta (de)serialiser reads each flag from the byte it was written to (= C08-R3, flag bytes), and both MarshalRecord implementations write the metadata with the generated codec that carries them (= C08-R3, section sequence); " +
 			"(R10) sibling agreement (A14): the paired functions consist of the same operations - calls with their constant arguments, comparisons (canonical under negation and operand order), field reads/writes, channel operations, returns, each with the number of conditions it depends on - once the instance-specific names are mapped onto each other; logging is ignored, named differences are listed in the table: the four attribute setters of the interface (MakeSecret, MakeCrownJewel, SetAbsoluteExpiry, SetRelativateExpiry) go through the same permission-checked lookup and write; " +
 			"(R11) NewInterface never sets Options.Local/Internal itself: an interface created without options - the external database API - is neither local nor internal; " +
 			"(R12) package database never calls CreateMeta/SetMeta on a record (the flags live in the metadata object; Meta.Reset keeps them), and Put ~ PutNew agree (A14, shared with C02-R16); " +
 			"NOT decided: absence of other data channels (logs, error strings), alias-level cache sharing between interfaces, behaviour over histories.",
 		Rules: []ruleFn{c03R1, c03R2, c03R3, c03R4, c03R5, c03R6, c03R7, c03R8,
-			borrowRule(c08R3, "C08-R3", "C03-R9", 1, func(s string) bool { return strings.Contains(s, "flag bytes") }),
+			borrowRule(c08R3, "C08-R3", "C03-R9", 2, func(s string) bool { return strings.Contains(s, "flag bytes") || strings.Contains(s, "section sequence") }),
 			func(c *Ctx, r *Report) { siblingRule(c, r, "C03-R10", sibSetters) }, c03R11, c03R12,
 			func(c *Ctx, r *Report) { siblingRule(c, r, "C03-R12", sibDatabase[:1]) }},
 	})
